@@ -220,6 +220,12 @@ def check_functor(ctx):
                                   for s in o2d.body)
     ctx.ob("R09.2", q + ":Ty:ignores-winding", okw, found=[ast.unparse(s)[:70] for s in (o2d.body if o2d else [])][:2], required="adjoint objects get the dimension of the base object",
            mod=TEN, node=tb.node, sig="ty-winding")
+    if o2d is not None:
+        ov = o2d.args.args[0].arg
+        shape.match_stmts(ctx, "R09.2", q + ":Ty:image-of-an-object", o2d.body,
+                          ["if isinstance(obj, rigid.Ob) and obj.z != 0:\n    obj = type(obj)(obj.name)", "result = F.ob[type(d)(obj)]", "if isinstance(result, int):\n    result = Dim(result)",
+                           "if not isinstance(result, Dim):\n    result = Dim.upgrade(result)", "return result"], {ov: "obj", p: "d", self_: "F"}, mod=TEN, node=o2d, sig="ty-object", exact=True,
+                          required="the object (winding forgotten) is looked up as a one-object type of the diagram's type class; an int is a dimension; another type is upgraded to a Dim — the RESULT, when it is not one already")
     shape.match(ctx, "R09.2", q + ":Ty:in-order", ret_expr(tb.body), ["Dim(1).tensor(*map(obj_to_dim, d.objects))", "Dim(1).tensor(*map(obj_to_dim, d))"],
                 {p: "d", (o2d.name if o2d else "obj_to_dim"): "obj_to_dim"}, mod=TEN, node=tb.node, sig="ty-order")
 
